@@ -16,6 +16,8 @@ package connect
 
 import (
 	"context"
+	"errors"
+	"io"
 	"net/http"
 )
 
@@ -57,6 +59,9 @@ func NewUnaryHandler[Req, Res any](
 	implementation := func(ctx context.Context, conn StreamingHandlerConn) error {
 		var msg Req
 		if err := conn.Receive(&msg); err != nil {
+			return err
+		}
+		if err := receiveEndOfRequest[Req](conn); err != nil {
 			return err
 		}
 		request := &Request[Req]{
@@ -105,6 +110,22 @@ func NewClientStreamHandler[Req, Res any](
 	)
 }
 
+// receiveEndOfRequest verifies that the one message of a unary or
+// server-streaming request was the whole request: a second message is a
+// cardinality violation, and anything else that follows the message -
+// stray bytes, part of an envelope - is malformed framing. Neither may be
+// silently ignored.
+func receiveEndOfRequest[Req any](conn StreamingHandlerConn) error {
+	err := conn.Receive(new(Req))
+	if err == nil {
+		return errorf(CodeUnimplemented, "request has multiple messages, the procedure takes exactly one")
+	}
+	if errors.Is(err, io.EOF) {
+		return nil
+	}
+	return err
+}
+
 // NewServerStreamHandler constructs a Handler for a server streaming procedure.
 func NewServerStreamHandler[Req, Res any](
 	procedure string,
@@ -117,6 +138,9 @@ func NewServerStreamHandler[Req, Res any](
 		func(ctx context.Context, conn StreamingHandlerConn) error {
 			var msg Req
 			if err := conn.Receive(&msg); err != nil {
+				return err
+			}
+			if err := receiveEndOfRequest[Req](conn); err != nil {
 				return err
 			}
 			return implementation(
